@@ -42,7 +42,7 @@ META = dict(
 
 
 def shards(tier):
-    return 6 if tier == "quick" else 16
+    return 8 if tier == "quick" else 16
 
 
 # ---------------------------------------------------------------------------
